@@ -265,7 +265,7 @@ static const std::vector<Nest>& nests() {
         {"ubjson", "array_siblings", [](size_t d) { if (!d) return std::string("Z"); std::string s, e; for (size_t i = 0; i + 1 < d; ++i) { s += "[[]{}[]"; e += "]"; } return s + "[]" + e; }},
         // a typed array (RFC 8746) and the arrays a multi-dimensional array expands to are containers like any other
         {"cbor", "typed_array_leaf", [](size_t d) { if (!d) return std::string("\x00", 1); return rep("\x81", d - 1) + std::string("\xd8\x40\x41\x01", 4); }},
-        {"cbor", "multi_dim", [](size_t d) { if (!d) return std::string("\x00", 1); if (d > 23) d = 23; std::string ext(1, (char)(0x80 + d)); ext += rep("\x01", d); return std::string("\xd8\x28\x82", 3) + ext + std::string("\x81\x07", 2); }},
+        {"cbor", "multi_dim", [](size_t d) { if (!d) return std::string("\x00", 1); std::string ext; if (d < 24) ext.push_back((char)(0x80 + d)); else if (d < 256) { ext.push_back((char)0x98); ext.push_back((char)d); } else if (d < 65536) { ext.push_back((char)0x99); ext.push_back((char)(d >> 8)); ext.push_back((char)d); } else { ext.push_back((char)0x9a); for (int sh = 24; sh >= 0; sh -= 8) ext.push_back((char)(d >> sh)); } ext += rep("\x01", d); return std::string("\xd8\x28\x82", 3) + ext + std::string("\x81\x07", 2); }},
         {"cbor", "array", [](size_t d) { return rep("\x81", d ? d - 1 : 0) + (d ? std::string("\x80", 1) : std::string("\x00", 1)); }},
         {"cbor", "indef_array", [](size_t d) { return rep("\x9f", d) + (d ? "" : std::string("\x00", 1)) + rep("\xff", d); }},
         {"cbor", "map", [](size_t d) { return rep("\xa1\x61\x61", d ? d - 1 : 0) + (d ? std::string("\xa0", 1) : std::string("\x00", 1)); }},
